@@ -325,6 +325,20 @@ func replayFile(r *evid.Run, path string) int {
 	if rp.Replay.Bytes != "" {
 		return 0
 	}
+	var sp struct {
+		Replay sessReplay `json:"replay"`
+	}
+	if json.Unmarshal(b, &sp) == nil && len(sp.Replay.Session) > 0 {
+		// a session of Session.tla: run it again in a fresh process
+		self, _ := os.Executable()
+		s := &sessionRunner{r: r, self: self, args: []string{"worker"}, alone: map[string]*sessObs{}, build: sp.Replay.Build}
+		s.runSession(sp.Replay.Session)
+		if r.Violations() > 0 {
+			return 1
+		}
+		fmt.Println("the stored session gives the same reply as its last call alone on the current tree")
+		return 0
+	}
 	// not a single-document replay: re-run the check and see whether the same signature comes back
 	r.OnlySig = hdr.Sig
 	checks[r.ID](r)
